@@ -62,6 +62,13 @@ class C11(CurveCheck):
                 for (v, s) in ((v1, s1), (v1, s2), (v1, s1), (v2, s1), (v1, s1)):
                     cs.append(Case("subaddr %s %s %d %d %s" % (v, s, i, j, NETS[k % 4]), "shared-view-or-spend-key"))
                 k += 1
+        # structured scalars (limb patterns) as view and spend secrets, every network choice incl. the default
+        SS = ed.structured_scalars(rng)
+        for kk, a in enumerate(SS if not q else SS[::4]):
+            b_ = SS[(11 * kk + 5) % len(SS)]
+            for (i, j) in ((0, 1), (1, 0), (0, 0)):
+                cs.append(Case("subaddr %s %s %d %d %s" % (le(a).hex(), le(b_).hex(), i, j, NETS[kk % 4]),
+                               "structured-scalars"))
         # edge scalars
         for v, s in ((0, 0), (1, 1), (L - 1, L - 1), (0, L - 1), (L - 1, 1)):
             for (i, j) in ((0, 0), (0, 1), (1, 0), (2**32 - 1, 2**32 - 1)):
